@@ -8,7 +8,8 @@ gKind == IOEnv.GEN_KIND
 Mine(S) == LET q == SetToSeq(S) IN [j \in 1..Cardinality({i \in DOMAIN q : i % gPS = gP}) |-> q[SetToSortSeq({i \in DOMAIN q : i % gPS = gP}, <)[j]]]
 Cases(z) ==
   IF gKind = "shapes" THEN SetToSeq({[kind |-> "shape", fmt |-> "", toks |-> <<>>, mut |-> [f |-> "", v |-> ""], shape |-> s] :
-                                        s \in {x \in Shapes : x.text <= gK /\ (x.text * 4 + x.styles + 3 * x.regions) % gPS = gP}})
+                                        \* every partition holds every text class (the partition key leaves the text out)
+                                        s \in {x \in Shapes : x.text <= gK /\ (x.styles + 3 * x.regions + 5 * x.istyle + 7 * x.lines + 11 * x.iregion) % gPS = gP}})
   ELSE IF gKind = "stl" THEN Mine({[kind |-> "stl", fmt |-> "stl", toks |-> <<>>, mut |-> m, shape |-> <<>>] : m \in StlMutations})
   ELSE Mine({[kind |-> "tokens", fmt |-> gKind, toks |-> t, mut |-> [f |-> "", v |-> ""], shape |-> <<>>] : t \in SeqsUpTo(Alphabet(gKind), gK)})
 ASSUME LET cs == Cases(0) IN ndJsonSerialize(IOEnv.GEN_OUT, cs) /\ PrintT(<<"GENERATED", gKind, Len(cs)>>)
